@@ -282,6 +282,57 @@ def empty_clone_trees(ck):
         ck.nontrivial("empty:" + json.dumps(rep["trees"]))
 
 
+def mixed_traces(ck, workdir):
+    """Traces that hold SEVERAL different trees (incl. exact 50/50 splits between incompatible clades, as two equally long
+    chains sitting in two modes give): every command must complete and its table must list every mutation once per
+    sample with a clone id that is a node of the Newick tree or -1."""
+    from phyclone.process_trace import write_map_results, write_consensus_results, write_topology_report
+    n = 4
+    data, samples, clusters, mutname = make_inputs(n, [1] * n, 2, False)
+    T = lambda f, o=(): absstate.canon({"f": f, "o": list(o)})
+    cases = [
+        ("two incompatible trees, one entry each", [(0, [T([[0, 1, 2, 3], [1], [2, 3]])]), (1, [T([[0, 1, 2, 3], [2], [1, 3]])])]),
+        ("two chains in two modes, two entries each", [(0, [T([[0, 1, 2], [1, 2], [3]])] * 2), (1, [T([[0, 1, 2], [0, 1], [3]])] * 2)]),
+        ("nested vs flat, with an outlier", [(0, [T([[0, 1, 2], [1, 2], [2]], [3]), T([[0], [1], [2]], [3])])]),
+        ("four different trees", [(0, [T([[0, 1, 2, 3]]), T([[0, 1], [2, 3]]), T([[0, 2], [1, 3]]), T([[0, 3], [1, 2]])])]),
+    ]
+    d = os.path.join(workdir, "mixed")
+    os.makedirs(d, exist_ok=True)
+    sink = io.StringIO()
+    for ci, (label, chains) in enumerate(cases):
+        tp = os.path.join(d, "trace%d.pkl.gz" % ci)
+        outputs.write_trace_file(tp, [(num, [(k, -2.0 - 0.25 * j, j) for j, k in enumerate(ents)]) for num, ents in chains], data, samples)
+        rep = {"case": label, "chains": [[absstate.to_json(k) for k in ents] for _, ents in chains]}
+        for cmd, kw in (("map", {}), ("consensus", dict(consensus_threshold=0.5, weight_type="counts")), ("consensus", dict(consensus_threshold=0.5)),
+                        ("consensus", dict(consensus_threshold=0.75, weight_type="counts")), ("topology", {})):
+            ck.evaluations += 1
+            tf, nf = os.path.join(d, "o.tsv"), os.path.join(d, "o.nwk")
+            try:
+                with contextlib.redirect_stdout(sink):
+                    if cmd == "map":
+                        write_map_results(tp, tf, nf, **kw)
+                    elif cmd == "consensus":
+                        write_consensus_results(tp, tf, nf, **kw)
+                    else:
+                        write_topology_report(tp, os.path.join(d, "rep.tsv"), topologies_archive=os.path.join(d, "a.tar.gz"))
+                pairs = [(outputs.read_table(tf), open(nf).read())] if cmd != "topology" else list(outputs.read_archive(os.path.join(d, "a.tar.gz")).values())
+                for table, nw in pairs:
+                    nodes = set(outputs.parse_newick(nw)) | {"root"}
+                    seen = {}
+                    for _, row in table.iterrows():
+                        k = (str(row["mutation_id"]), str(row["sample_id"]))
+                        seen[k] = seen.get(k, 0) + 1
+                        if int(row["clone_id"]) != -1 and str(int(row["clone_id"])) not in nodes:
+                            ck.violation("C12|mixed|%s|clone_not_in_tree" % cmd, "%s %s: clone id %s of %s is not a node of the Newick tree (%s)" % (cmd, kw, row["clone_id"], k[0], label), rep)
+                            break
+                    if sorted(seen) != sorted((m, s_) for m in mutname for s_ in samples) or set(seen.values()) != {1}:
+                        ck.violation("C12|mixed|%s|rows" % cmd, "%s %s: the table does not list every mutation exactly once per sample (%s)" % (cmd, kw, label), rep)
+            except Exception as ex:  # noqa
+                ck.violation("C12|mixed|%s|exception:%s" % (cmd, type(ex).__name__), "%s %s raised %s: %s on a trace with %s" % (cmd, kw, type(ex).__name__, ex, label), rep)
+        ck.nontrivial("mixed:" + label)
+        ck.traces_validated += 1
+
+
 def run(corrupt=None):
     ck = Check("C12")
     env.use_repo()
@@ -314,6 +365,7 @@ def run(corrupt=None):
                 ck.nontrivial("%d:%s" % (si, absstate.key_str(key)))
         ck.sample({"setting": {"sizes": sizes, "samples": S, "clustered": clustered}, "state": recs[-1]["st"], "rows": recs[-1]["rows"][:4]})
     empty_clone_trees(ck)
+    mixed_traces(ck, workdir)
     shutil.rmtree(workdir, ignore_errors=True)
     ck.rule = ("every forest on %d data points (quick tier: plus all forests on 4 points, unclustered; any outlier subset incl. all outliers) x 4 settings (unclustered 1-2 samples; clustered sizes 1-3, integer ids) "
                "through get_clone_table, and through the map / consensus / topology-report commands on real trace files for a third of them "
